@@ -2,3 +2,6 @@ import SCModel.Model.Basic
 import SCModel.Model.Ops
 import SCModel.Model.Layer
 import SCModel.Model.Stats
+import SCModel.Model.Arrays
+import SCModel.Model.Slicing
+import SCModel.Model.World
